@@ -1,4 +1,4 @@
-//! Translation validation of the hook constructor `new_without_type_counts` (used by the C10, C11,
+//! Translation validation of the hook constructors `new_without_type_counts` / `from_cone_vec` (used by the C10, C11,
 //! C15, C20 harnesses because HashMap insertion is not executable by the model checker):
 //! on a few hundred cone lists it agrees with the real `CompositeCone::new` on every field the
 //! solver reads (everything except the printing-only `type_counts` map).  Run natively by bin/check.
@@ -27,6 +27,13 @@ fn hook_constructor_agrees_with_real_constructor() {
                 let l = &list[..len];
                 let a = CompositeCone::<f64>::new(l);
                 let b = cc::new_without_type_counts::<f64>(l);
+                let c = cc::from_cone_vec::<f64>(l.iter().map(make_cone).collect());
+                assert_eq!(a.numel(), c.numel());
+                assert_eq!(a.degree(), c.degree());
+                assert_eq!(a.is_symmetric(), c.is_symmetric());
+                assert_eq!(a.len(), c.len());
+                assert_eq!(cc::rng_cones(&a), cc::rng_cones(&c));
+                assert_eq!(cc::rng_blocks(&a), cc::rng_blocks(&c));
                 assert_eq!(a.numel(), b.numel());
                 assert_eq!(a.degree(), b.degree());
                 assert_eq!(a.is_symmetric(), b.is_symmetric());
